@@ -78,9 +78,18 @@ Theorem C19_prefix_shortcut_compound : forall (c : Z) (d kd : list Z) (kc : Z), 
   sgnc (sblk_cmp_key_full memcmp cmode (set_vnum64 c ++ d) kd kc) = sgnc (cmp_keys memcmp cmode (set_vnum64 c ++ d) kd kc).
 Proof. exact prefix_shortcut_compound. Qed.
 Print Assumptions C19_prefix_shortcut_compound.
-(* PARTIAL: for real-number keys (iwafcmp; with or without a compound part) and integer keys with a compound part,
-   antisymmetry / transitivity / equal-iff-identical / agreement with numeric order are decided on key triples by the oracle
-   of checks/C19.py (model Keys.v compared with the implementation's static comparators), not proved. *)
+(* real-number keys: iwafcmp is a total preorder on arbitrary byte strings, equal only on identical texts; the order is
+   (integer part, fraction as a rational, bytes) *)
+Require Import IW.KV.KeysReal_proofs.
+Theorem C19_realkey_cmp_order :
+  (forall a b : key, cmp_of realmode a b = CompOpp (cmp_of realmode b a)) /\
+  (forall a b c : key, cmp_of realmode a b = Lt -> cmp_of realmode b c = Lt -> cmp_of realmode a c = Lt) /\
+  (forall a b : key, cmp_of realmode a b = Eq <-> fst a = fst b).
+Proof. split; [exact real_cmp_antisym|]. split; [exact real_cmp_trans|exact real_cmp_eq_iff]. Qed.
+Print Assumptions C19_realkey_cmp_order.
+(* PARTIAL: integer and real-number keys WITH a compound part are decided on key triples by the oracle of checks/C19.py
+   (model Keys.v compared with the implementation's static comparators), not proved; the agreement of the model's exact
+   fraction with the long-double sum of the C code is compared on generated texts only. *)
 
 Example C19_examples : atoi (dec (- 2 ^ 63)) = - 2 ^ 63 /\ hex2bin (bin2hex [0; 255; 26]) = [0; 255; 26] /\ set_vnum64 300 = [211; 2].
 Proof. vm_compute. repeat split; reflexivity. Qed.
